@@ -57,7 +57,7 @@ func c09Run(r *Run, burnPaused, sendPaused bool, attCfg string) {
 		o := w.Apply(a)
 		pre = append(pre, a)
 		if !o.OK {
-			r.HarnessError("preamble %s failed: %s%s", a.Desc, o.Err, o.PanicVal)
+			panic(preambleFailed{fmt.Sprintf("%s: %s%s", a.Desc, o.Err, o.PanicVal)})
 		}
 		return o
 	}
